@@ -28,19 +28,20 @@ import (
 
 var m13cTable []interface{}
 
+// (if-chains of single type assertions, not type switches: the read-slot and
+// attest-slot replies have the same layout and may be one type under two names)
 func m13cMarshal(msg interface{}) []byte {
-	switch m := msg.(type) {
-	case *agentListSlotsResp:
+	if m, ok := msg.(*agentListSlotsResp); ok {
 		c := *m
 		c.Slots = append([]string(nil), m.Slots...)
 		m13cTable = append(m13cTable, c)
-	case *agentReadSlotResp:
+	} else if m, ok := msg.(*agentReadSlotResp); ok {
 		c := *m
 		m13cTable = append(m13cTable, c)
-	case *agentAttestSlotResp:
+	} else if m, ok := msg.(*agentAttestSlotResp); ok {
 		c := *m
 		m13cTable = append(m13cTable, c)
-	default:
+	} else {
 		panic("m13cMarshal: unexpected message type")
 	}
 	return []byte{0xF0, byte(len(m13cTable) - 1)}
@@ -50,24 +51,28 @@ func m13cUnmarshal(data []byte, out interface{}) error {
 	if len(data) != 2 || data[0] != 0xF0 || int(data[1]) >= len(m13cTable) {
 		return errors.New("model: malformed message")
 	}
-	switch o := out.(type) {
-	case *agentListSlotsResp:
-		if v, ok := m13cTable[data[1]].(agentListSlotsResp); ok {
+	stored := m13cTable[data[1]]
+	if o, ok := out.(*agentListSlotsResp); ok {
+		if v, ok := stored.(agentListSlotsResp); ok {
 			*o = v
 			return nil
 		}
-	case *agentReadSlotResp:
+		return errors.New("model: message of another type")
+	}
+	if o, ok := out.(*agentReadSlotResp); ok {
 		// the attest reply has the same wire layout as the read reply
-		switch v := m13cTable[data[1]].(type) {
-		case agentReadSlotResp:
+		if v, ok := stored.(agentReadSlotResp); ok {
 			*o = v
 			return nil
-		case agentAttestSlotResp:
+		}
+		if v, ok := stored.(agentAttestSlotResp); ok {
 			o.Cert, o.Err = v.Cert, v.Err
 			return nil
 		}
-	case *agentAttestSlotResp:
-		if v, ok := m13cTable[data[1]].(agentAttestSlotResp); ok {
+		return errors.New("model: message of another type")
+	}
+	if o, ok := out.(*agentAttestSlotResp); ok {
+		if v, ok := stored.(agentAttestSlotResp); ok {
 			*o = v
 			return nil
 		}
